@@ -1,20 +1,21 @@
-\* smoke test
+\* C09 finding: amoco's quirk PtrKeyLE ALONE (everything else repaired) must violate Correct:
+\* copies of a map lay big-endian stores out little-endian
 CONSTANTS
   Ptrs = {"p", "q"}
   Offs = {0, 1}
   Sizes = {1, 2}
   Deltas <- DeltasSmall
-  P0 = 6
-  Top = 15
-  NAs = {FALSE}
+  P0 = 4
+  Top = 10
+  NAs = {TRUE}
   MTs = {TRUE}
-  Ens = {1}
+  Ens <- EnsBE
   MInits = {0}
   VKs = {"d"}
   MaxSt = 3
   MaxLd = 0
   MaxLen = 3
-  Q <- QAsIs
+  Q = {"PtrKeyLE"}
   Clauses <- AllClauses
   Probe = TRUE
   PvInState = FALSE
